@@ -255,13 +255,55 @@ _VRS_TAIL_INCREMENTAL = '''    else:
     return out if len(out) > 1 else out[0]
 '''
 
+_WORKER_IC_BODY = '''    (j, (coeffunc, Q, dT, methfunc, S, stype)) = args
+    b, a = coeffunc(Q, dT, WN_[j])
+    resphist = signal.lfilter(b, a, SIG_, axis=0)
+    if stype == "reldisp":
+        resphist += ICVALS_ / WN_[j] ** 2
+    elif stype == "pvelo":
+        resphist += ICVALS_ / WN_[j]
+    else:
+        # stype == 'pacce' or 'absacce'
+        resphist += ICVALS_
+    SRSmax_[j] = methfunc(resphist[S:])
+    HIST_[:, :, j] = resphist[S:]
+'''
+
+_WORKER_IC_COMMON = '''    _dosrs_any(args, True, True)
+
+
+def _dosrs_any(args, ic, hist):
+    j, rest = args
+    coeffunc, Q, dT, methfunc, S = rest[:5]
+    w = WN_[j]
+    b, a = coeffunc(Q, dT, w)
+    resphist = signal.lfilter(b, a, SIG_, axis=0)
+    if ic:
+        stype = rest[5]
+        if stype == "reldisp":
+            resphist += ICVALS_ / w ** 2
+        elif stype == "pvelo":
+            resphist += ICVALS_ / w
+        else:
+            resphist += ICVALS_
+    SRSmax_[j] = methfunc(resphist[S:])
+    if hist:
+        HIST_[:, :, j] = resphist[S:]
+'''
+
+_ALLOC_HELPER = _multi(("def _process_inputs(", "def _zeros(shape):\n    out = np.empty(shape)\n    out[...] = 0.0\n    return out\n\n\ndef _process_inputs("),
+                       ("    else:\n        SRSmax = np.empty((LF, H))\n", "    else:\n        SRSmax = _zeros((LF, H))\n"),
+                       ('                resp["hist"] = np.empty((N - M, H, LF))\n', '                resp["hist"] = _zeros((N - M, H, LF))\n'),
+                       ('                resp["hist"] = np.empty((N, H, LF))\n', '                resp["hist"] = _zeros((N, H, LF))\n'))
+_ALLOC_HELPER_DIMS = (_ALLOC_HELPER[0], _ALLOC_HELPER[1].replace("_zeros((N - M, H, LF))", "_zeros((N, H, LF))"))
+
 _HELPER_RESP = _multi((_GETRESP_BLOCK, _GETRESP_HELPER), ("def vrs(", _START_RESP))
 _HELPER_RESP_SHORT_T = (_HELPER_RESP[0], _HELPER_RESP[1].replace("np.arange(first, N) / sr", "np.arange(first, N - 1) / sr"))
 _HELPER_RESP_DIMS = (_HELPER_RESP[0], _HELPER_RESP[1].replace("dims = (N - first, H, LF)", "dims = (N, H, LF)"))
 _LOOPS = _multi((_NOIC_LOOP, _NOIC_WHILE), (_IC_LOOP_HEAD, _IC_LOOP_ZIP))
 _LOOPS_SWAPPED = (_LOOPS[0], _LOOPS[1].replace("while j != LF:\n                b, a = coeffunc(Q, dT, wn[j])\n                resphist = signal.lfilter(b, a, sig",
                                                 "while j != LF:\n                b, a = coeffunc(Q, dT, wn[j])\n                resphist = signal.lfilter(a, b, sig"))
-_LOOPS_START = (_LOOPS[0], _LOOPS[1].replace("                j = j + 1\n", "                j = j + 1\n").replace(
+_LOOPS_START = (_LOOPS[0], _LOOPS[1].replace(
     "while j != LF:\n                b, a = coeffunc(Q, dT, wn[j])\n                resphist = signal.lfilter(b, a, sig, axis=0)\n                SRSmax[j] = methfunc(resphist[S:])",
     "while j != LF:\n                b, a = coeffunc(Q, dT, wn[j])\n                resphist = signal.lfilter(b, a, sig, axis=0)\n                SRSmax[j] = methfunc(resphist[M:])"))
 _TABLES = _multi(("    S = M if ptr == 2 else 0\n", "    S = {0: 0, 1: 0, 2: M}[ptr]\n"),
@@ -318,6 +360,9 @@ RECIPES = [
     ("C03", "break", ["C03-R1"], S) + _ELEMENT_STORES_WRONG + ("coefficient array filled element by element in a helper: beta1 and beta2 swapped",),
     ("C03", "break", ["C03-R7"], S, _TAIL, _TAIL_INCREMENTAL.replace('        if eqsine:\n            resp["hist"] /= Q\n', ""), "result tuple assembled incrementally: history not divided by Q"),
     ("C03", "break", ["C03-R4"], S, _TAIL, _TAIL_CONCAT.replace("return (SRSmax,) + extra", "return extra + (SRSmax,)"), "result tuple concatenated in the wrong order"),
+    ("C03", "break", ["C03-R3"], S, _WORKER_IC_BODY, _WORKER_IC_COMMON.replace("resphist += ICVALS_ / w\n", "resphist += ICVALS_ / w ** 2\n"),
+     "worker body in a common helper that reads the worker globals: pvelo add-back divided by wn^2"),
+    ("C03", "break", ["C03-R4"], S) + _ALLOC_HELPER_DIMS + ("arrays allocated by a helper used twice: residual history allocated for the total window",),
     # ---- neutral: refactorings the value-level rules must not notice
     ("C03", "neutral", [], S, _PAD_HEAD, _PAD_HEAD_MASK, "lowest non-zero frequency through a boolean mask"),
     ("C03", "neutral", [], S, "    S = M if ptr == 2 else 0\n", '    S = 0\n    if time == "residual":\n        S = M\n', "window start decided on the option string"),
@@ -337,5 +382,7 @@ RECIPES = [
     ("C03", "neutral", [], S) + _TABLES + ("module-level dict(...) table, integer- and bool-key tables, dict(zip(...)), list indexed by 0 / 1",),
     ("C03", "neutral", [], S) + _TRY_LOOKUP + ("table look-ups through a helper with try / except KeyError",),
     ("C03", "neutral", [], S) + _ELEMENT_STORES + ("coefficient arrays filled element by element in a helper that returns them",),
+    ("C03", "neutral", [], S, _WORKER_IC_BODY, _WORKER_IC_COMMON, "worker body moved into a common helper that reads the worker globals, flags as arguments"),
+    ("C03", "neutral", [], S) + _ALLOC_HELPER + ("spectrum and history arrays allocated and zeroed by one helper (a local array returned twice)",),
     ("C03", "neutral", [], S, _VRS_TAIL, _VRS_TAIL_INCREMENTAL, "vrs: counted while loop, result tuple assembled incrementally, dict(...) response"),
 ]
